@@ -395,20 +395,19 @@ pub fn cut_str<W: Write>(
 
         let r = b.try_into_range(num_fields);
 
-        let output = if r.is_ok() {
+        let field_to_print = if r.is_ok() {
             let r = r.unwrap();
             let idx_start = fields[r.start].start;
             let idx_end = fields[r.end - 1].end;
-            &line[idx_start..idx_end]
+            maybe_replace_delimiter(&line[idx_start..idx_end], opt)
         } else if b.fallback_oob.is_some() {
-            b.fallback_oob.as_ref().unwrap()
+            // fallbacks are printed verbatim
+            std::borrow::Cow::Borrowed(b.fallback_oob.as_ref().unwrap().as_slice())
         } else if let Some(generic_fallback) = &opt.fallback_oob {
-            generic_fallback
+            std::borrow::Cow::Borrowed(generic_fallback.as_slice())
         } else {
             return Err(r.unwrap_err());
         };
-
-        let field_to_print = maybe_replace_delimiter(output, opt);
         write_maybe_as_json!(stdout, field_to_print, opt.json);
 
         if opt.join && !b.is_last {
